@@ -2,7 +2,7 @@
 C04 — NACK responder retransmits exactly what was sent.
 Only property theorems live here; models in Model/RtpBuffer.lean, Model/RefMachine.lean, specs in
 Spec/RtpBuffer.lean, Spec/Rtx.lean, helper lemmas in Proofs/{RtpBuffer,RtpBufferInv,Responder,
-ResponderClear,ResponderClose,AddConserve,SpecChar,RefMachine}.lean.  The model is the code *after* the fixes F-04, F-05 and (made under C11) F-06.
+ResponderClear,ResponderClose,AddConserve,SpecChar,RefMachine}.lean.  The model is the code *after* the fixes F-04, F-05, F-36 and (made under C11) F-06.
 -/
 import Interceptor.Proofs.ResponderClear
 import Interceptor.Proofs.RefMachine
@@ -113,52 +113,76 @@ theorem resend_inflight (r : Resp) (sp : Specs) (hi : RespInv r sp) (pd : Pendin
 /-! ### 3. the stored form -/
 
 /-- ★ T3 `rtx_form`: with RTX negotiated, a payload of at most 1460 bytes (everything
-`NewPacket` accepts) and well-formed padding, the stored packet is the RFC 4588 form: RTX SSRC and
-payload type, fresh RTX sequence number, padding flag and size cleared, payload = original
-sequence number (2 bytes, big endian) ++ original payload without padding. No truncation (F-05 fixed). -/
+`NewPacket` accepts) and, in the legacy padding form, a padding count that fits in the payload,
+the stored packet is the RFC 4588 form: RTX SSRC and payload type, fresh RTX sequence number,
+padding flag and size cleared, payload = original sequence number (2 bytes, big endian) ++
+original payload without padding.  No truncation (F-05 fixed); the prefix is never mistaken for
+padding, in particular not for a padding-only packet with an empty payload (F-36 fixed). -/
 theorem rtx_form (h : Hdr) (pl : List Nat) (rs rp k : Nat) (hon : rtxOn rs rp = true)
-    (hlen : pl.length ≤ 1460) (hwf : PaddingWF h pl) :
+    (hlen : pl.length ≤ 1460) (hfit : PaddingFits h pl) :
     newPacket h pl rs rp k = (.ok (rtxForm h pl rs rp k), true) := by
   unfold newPacket rtxForm dropPadding
   have h1 : ¬ pl.length > maxPayloadLen := by unfold maxPayloadLen; omega
   simp only [h1, if_false, hon, if_true]
+  have hlen2 : (be16 h.seq ++ pl).length = pl.length + 2 := by simp [be16]
   by_cases hp : h.padding = true
   · by_cases hps : h.paddingSize = 0
-    · obtain ⟨hne, hle⟩ := hwf hp hps
-      have hl : (be16 h.seq ++ pl).getLastD 0 = pl.getLastD 0 := getLastD_append_ne hne
-      have hlen2 : (be16 h.seq ++ pl).length = pl.length + 2 := by simp [be16]
-      simp only [hp, hps, hl, hlen2, true_and, if_true]
-      have : ¬ pl.getLastD 0 > pl.length + 2 := by omega
-      simp only [this, if_false, show pl.length + 2 > 0 by omega, if_true]
-      have ht : List.take (pl.length + 2 - pl.getLastD 0) (be16 h.seq ++ pl)
-              = be16 h.seq ++ List.take (pl.length - pl.getLastD 0) pl := by
-        rw [List.take_append]
-        have : (be16 h.seq).length = 2 := rfl
-        rw [this, List.take_of_length_le (by rw [this]; omega)]
-        congr 2; omega
-      rw [ht]
+    · by_cases hne : pl = []
+      · subst hne
+        simp [hp, hps, be16]
+      · have hle := hfit hp hps
+        have hl : (be16 h.seq ++ pl).getLastD 0 = pl.getLastD 0 := getLastD_append_ne hne
+        have hpos : pl.length > 0 := List.length_pos_iff.2 hne
+        simp only [hp, hps, hl, hlen2, true_and, if_true]
+        have h2 : pl.length + 2 > 2 := by omega
+        have h3 : ¬ pl.getLastD 0 > pl.length + 2 - 2 := by omega
+        simp only [h2, h3, if_false, if_true]
+        have ht : List.take (pl.length + 2 - pl.getLastD 0) (be16 h.seq ++ pl)
+                = be16 h.seq ++ List.take (pl.length - pl.getLastD 0) pl := by
+          rw [List.take_append]
+          have : (be16 h.seq).length = 2 := rfl
+          rw [this, List.take_of_length_le (by rw [this]; omega)]
+          congr 2; omega
+        rw [ht]
     · simp [hp, hps]
   · have hp' : h.padding = false := by simpa using hp
     simp [hp']
 
-example : rtxOn 2000 97 = true ∧ PaddingWF default [1, 2, 3] := by
+example : rtxOn 2000 97 = true ∧ PaddingFits default [1, 2, 3] := by
   refine ⟨by decide, ?_⟩; intro h; cases h
 
-/-- The well-formedness hypothesis of `rtx_form` is needed: a packet with the padding flag,
-`PaddingSize = 0` and an empty payload (a padding form the property quantifies over) loses its
-original-sequence-number prefix (the low byte of the sequence number is taken for a padding
-count) — here all of it; for a low byte above 2 `NewPacket` fails and the responder does not
-even forward the packet. -/
-theorem rtx_form_malformed_padding_false :
-    ¬ (∀ (h : Hdr) (pl : List Nat) (rs rp k : Nat), rtxOn rs rp = true → pl.length ≤ 1460 →
-        newPacket h pl rs rp k = (.ok (rtxForm h pl rs rp k), true)) := by
-  intro hall
-  have := hall { (default : Hdr) with padding := true, seq := 258 } [] 2000 97 0 (by decide) (by decide)
-  -- compare payload lengths: the code stores 0 bytes, the RTX form has the 2-byte prefix
-  have h2 := congrArg (fun x : Except NPErr Pkt × Bool =>
-    match x.1 with | .ok p => p.payload.length | .error _ => 0) this
-  revert h2
-  decide
+/-- T3, the complement of `PaddingFits`: a legacy padding count larger than the payload it sits
+in is refused with `errPaddingOverflow` (the RTX sequencer has been advanced). Together with
+`rtx_form` and `newPacket_too_long` this describes `NewPacket` with RTX on every input. -/
+theorem rtx_padding_overflow (h : Hdr) (pl : List Nat) (rs rp k : Nat) (hon : rtxOn rs rp = true)
+    (hlen : pl.length ≤ 1460) (hp : h.padding = true) (hps : h.paddingSize = 0)
+    (hover : pl.getLastD 0 > pl.length) :
+    newPacket h pl rs rp k = (.error .padding, true) := by
+  unfold newPacket
+  have h1 : ¬ pl.length > maxPayloadLen := by unfold maxPayloadLen; omega
+  have hne : pl ≠ [] := by intro c; subst c; simp at hover
+  have hl : (be16 h.seq ++ pl).getLastD 0 = pl.getLastD 0 := getLastD_append_ne hne
+  have hlen2 : (be16 h.seq ++ pl).length = pl.length + 2 := by simp [be16]
+  have hpos : pl.length > 0 := List.length_pos_iff.2 hne
+  simp only [h1, if_false, hon, if_true, hp, hps, hl, hlen2, true_and]
+  have h2 : pl.length + 2 > 2 := by omega
+  have h3 : pl.getLastD 0 > pl.length + 2 - 2 := by omega
+  simp only [h2, h3, if_true]
+
+example : ([0, 1, 200] : List Nat).getLastD 0 > ([0, 1, 200] : List Nat).length := by decide
+
+/-- T3, the former defect F-36 as a positive statement: a padding-only packet in the legacy form
+(padding flag, `PaddingSize` 0, empty payload) is stored as exactly the original-sequence-number
+prefix, whatever the sequence number's low byte is. -/
+theorem rtx_form_padding_only (h : Hdr) (rs rp k : Nat) (hon : rtxOn rs rp = true)
+    (hp : h.padding = true) (hps : h.paddingSize = 0) :
+    newPacket h [] rs rp k =
+      (.ok { seq := h.seq,
+             hdr := { h with ssrc := rs, pt := rp, seq := k, padding := false, paddingSize := 0 },
+             payload := be16 h.seq }, true) := by
+  have := rtx_form h [] rs rp k hon (by simp) (by intro _ _; simp)
+  rw [this]
+  simp [rtxForm, dropPadding, hp, hps]
 
 /-- ★ T3 `copy_form`: without RTX the stored packet is the packet (equal header and payload
 values; that the storage is disjoint from the caller's is C13's statement and is checked by the
